@@ -117,6 +117,34 @@ def strip_expected(c: dict) -> dict:
     return c
 
 
+def forget_tail_uuids(c: dict) -> dict:
+    """canonical action without what `obj_id` (ONE cell: the first group's uuid) cannot carry: the
+    uuids of the groups after the first (Lean `Act.forgetTailUuids`)"""
+    c = copy.deepcopy(c)
+    for g in c.get("groups", [])[1:]:
+        g["uuid"] = None
+    return c
+
+
+def tail_uuid_trigger(c: dict) -> bool:
+    """trigger of the open finding F-C04-g: a group action with more than one group where a group after
+    the first carries a uuid that the sheet does not give back (the sheet gives back: nothing, or —
+    one dictionary entry per name — the first group's uuid for a group named like the first)"""
+    gs = c.get("groups") or []
+    return any(g["uuid"] is not None and not (g["name"] == gs[0]["name"] and g["uuid"] == gs[0]["uuid"]) for g in gs[1:])
+
+
+def same_kept(got: list, c: dict) -> bool:
+    """the property's observable for ONE action with uuids kept (no --strip_uuids): it comes back as one
+    action equal to the original — when F-C04-g's trigger is present: equal in everything except the
+    uuids of the groups after the first (trigger AND pattern; anything else is a failure)"""
+    if not isinstance(got, list) or len(got) != 1:
+        return False
+    if tail_uuid_trigger(c):
+        return forget_tail_uuids(got[0]) == forget_tail_uuids(c)
+    return got[0] == c
+
+
 # ------------------------------------------------------------------ real code
 
 
@@ -302,6 +330,33 @@ def gen_attachment(rng, k):
     return f"{kind}:http://x.org/f{k}.{rng.choice(['png', 'mp3', 'a b', 'é'])}"
 
 
+# group names: plain, padded, with the separators / escape character of a list cell (`mainarg_groups` is
+# written as ONE list cell), non-ASCII, not in normal form
+GROUP_NAMES = ["GrpA", "Grp B", "é|;", "  g  ", "a|b", "x;y", "back\\slash", "\\;", "\\|", "tail\\", "日本 グループ", "Parents; Teachers",
+               "Staff|Volunteers", "cafe\u0301", "|", ";", "\U0001F600 team", "a,b", 'q"uote']
+
+
+def gen_groups(rng):
+    """1-4 group references.  uuid modes: `sheet` = what a sheet can give back (the first group's own uuid or
+    none, the others by name — a group named like the first shares its uuid); `none`; `all` = as RapidPro
+    writes them, every group with the uuid of its name (several groups: F-C04-g's trigger)"""
+    n = rng.choice([1, 1, 1, 2, 2, 3, 4])
+    names = [rng.choice(GROUP_NAMES) for _ in range(n)]
+    if n > 1 and rng.random() < 0.3:
+        names[rng.randrange(1, n)] = names[0]          # equal names twice
+    mode = rng.choice(["sheet", "sheet", "none", "all"])
+    by_name = {}
+    first = None if mode == "none" or rng.random() < 0.2 else gen_uuid(rng)
+    gs = []
+    for i, name in enumerate(names):
+        if mode == "all":
+            u = by_name.setdefault(name, gen_uuid(rng))
+        else:
+            u = first if name == names[0] else None
+        gs.append({"uuid": u, "name": name})
+    return gs
+
+
 KINDS = ["send_msg", "set_contact_field", "set_contact_prop", "add_contact_groups", "remove_contact_groups", "set_run_result",
          "enter_flow", "call_webhook", "transfer_airtime", "add_contact_urn"]
 
@@ -333,7 +388,7 @@ def gen_expressible(rng: random.Random, kind=None) -> dict:
         a["type"] = "set_contact_" + p
         a[p] = {"language": rng.choice(["eng", "fra"]), "status": rng.choice(["active", "blocked"]), "timezone": "Africa/Kigali"}.get(p) or gen_text(rng, "Bob")
     elif t in ("add_contact_groups", "remove_contact_groups"):
-        a["groups"] = [{"uuid": rng.choice([None, gen_uuid(rng), gen_uuid(rng)]), "name": rng.choice(["GrpA", "Grp B", "é|;", "  g  "])}]
+        a["groups"] = gen_groups(rng)
         if t == "remove_contact_groups" and rng.random() < 0.3:
             a["all_groups"] = False
     elif t == "set_run_result":
@@ -402,12 +457,14 @@ def mutate_non_expressible(rng: random.Random, a: dict) -> tuple[dict, str]:
         a[p] = ""
         return a, "set_contact_prop.empty_value"
     if t in ("add_contact_groups", "remove_contact_groups"):
-        ms = ["no_group", "two_groups", "empty_uuid", "attrs"] + (["all_groups", "all_groups_no_group"] if t == "remove_contact_groups" else [])
+        ms = ["no_group", "tail_blank_name", "tail_attrs", "empty_uuid", "attrs"] + (["all_groups", "all_groups_no_group"] if t == "remove_contact_groups" else [])
         m = rng.choice(ms)
         if m == "no_group":
             a["groups"] = []
-        elif m == "two_groups":
-            a["groups"] += [{"uuid": gen_uuid(rng), "name": f"Extra {j}"} for j in range(rng.choice([1, 2]))]
+        elif m == "tail_blank_name":
+            a["groups"].insert(rng.randrange(1, len(a["groups"]) + 1), {"uuid": None, "name": ""})
+        elif m == "tail_attrs":
+            a["groups"].insert(rng.randrange(1, len(a["groups"]) + 1), {"uuid": None, "name": "Extra", rng.choice(["query", "count"]): rng.choice(["age > 3", 7])})
         elif m == "empty_uuid":
             a["groups"][0]["uuid"] = ""
         elif m == "attrs":
@@ -511,7 +568,7 @@ def gen_row_fields(rng: random.Random) -> dict:
         "video": lambda: rng.choice(["", "http://v", "\t"]),
         "attachments": lambda: [rng.choice(["", "image:x", "geo:1,2", "audio: y", ":"]) for _ in range(rng.choice([0, 1, 2]))],
         "wa_template": lambda: {"name": rng.choice(["", "tmpl", " "]), "uuid": rng.choice(["", "tu-1"]), "variables": [rng.choice(["", "v1", "é"]) for _ in range(rng.choice([0, 2]))]},
-        "mainarg_groups": lambda: [rng.choice(["G1", "G 2", "", "é|;"]) for _ in range(rng.choice([0, 1, 1, 2]))],
+        "mainarg_groups": lambda: [rng.choice(["G1", "G 2", "", "é|;", "G1"]) for _ in range(rng.choice([0, 1, 1, 2, 3, 4]))],
         "obj_id": lambda: rng.choice(["", "id-1", " "]), "urn_scheme": lambda: rng.choice(["", "tel", "whatsapp", " "]),
         "mainarg_flow_name": lambda: rng.choice(["", "child", " ", "é|;"]),
         "webhook": lambda: {"url": rng.choice(["http://x", "u"] if good else ["", "http://x", " "]), "method": rng.choice(METHODS + [""] if good else METHODS + METHODS_BAD),
@@ -557,7 +614,10 @@ WITNESSES = [
     ("needs_no_channel_ref", {"type": "set_contact_channel", "uuid": _U, "channel": {"uuid": "c-1", "name": "Channel"}}, "export"),
     ("needs_a_group", {"type": "add_contact_groups", "uuid": _U, "groups": []}, "export"),
     ("needs_a_group", {"type": "remove_contact_groups", "uuid": _U, "groups": [], "all_groups": True}, "export"),
-    ("needs_one_group", {"type": "add_contact_groups", "uuid": _U, "groups": [{"name": "A", "uuid": "g-a"}, {"name": "B", "uuid": "g-b"}]}, "lossy"),
+    ("needs_tail_uuids_kept", {"type": "add_contact_groups", "uuid": _U, "groups": [{"name": "A", "uuid": "g-a"}, {"name": "B", "uuid": "g-b"}]}, "lossy"),
+    ("needs_tail_uuid_of_first_name", {"type": "remove_contact_groups", "uuid": _U, "groups": [{"name": "A", "uuid": "g-a"}, {"name": "A", "uuid": None}]}, "lossy"),
+    ("needs_no_tail_group_attrs", {"type": "add_contact_groups", "uuid": _U, "groups": [{"name": "A", "uuid": None}, {"name": "B", "uuid": None, "count": 3}]}, "lossy"),
+    ("needs_tail_name", {"type": "add_contact_groups", "uuid": _U, "groups": [{"name": "A", "uuid": None}, {"name": "", "uuid": None}, {"name": "C", "uuid": None}]}, "lossy"),
     ("needs_group_uuid", {"type": "add_contact_groups", "uuid": _U, "groups": [{"name": "A", "uuid": ""}]}, "lossy"),
     ("needs_no_group_attrs", {"type": "remove_contact_groups", "uuid": _U, "groups": [{"name": "A", "uuid": None, "query": "age > 3"}]}, "lossy"),
     ("needs_no_all_groups", {"type": "remove_contact_groups", "uuid": _U, "groups": [{"name": "A", "uuid": None}], "all_groups": True}, "lossy"),
@@ -630,9 +690,25 @@ def worker(args):
         keys.append(dumps(c))
         kind = c["type"]
         expressible = bool(m["expressible"])
-        bump(f"act.{kind}.{'expressible' if expressible else 'outside'}")
+        # the domain of the round trip: `ExpressibleModTailUuids` = `Expressible` without the clause on the uuids of
+        # the groups after the first (obj_id is ONE cell); inside it and outside `Expressible` = trigger of F-C04-g
+        inside = bool(m["expressible_mod_tail_uuids"])
+        trigger = tail_uuid_trigger(c)
+        bump(f"act.{kind}.{'expressible' if inside else 'outside'}")
         if tag != "expressible":
             bump("act.clause." + tag)
+        if "groups" in c:
+            bump(f"groups.count.{min(len(c['groups']), 4)}")
+            names = [g["name"] for g in c["groups"]]
+            if len(set(names)) < len(names):
+                bump("groups.equal_names_twice")
+            if len(names) > 1 and any(ch in nm for nm in names for ch in "|;\\"):
+                bump("groups.several.separator_or_escape_in_name")
+            if len(names) > 1 and inside:
+                bump("groups.several.inside." + ("tail_uuids(F-C04-g trigger)" if trigger else "uuids_the_sheet_gives_back"))
+        if not oracle_only and (expressible != (inside and not trigger) or m["forget_tail_uuids"] != forget_tail_uuids(c)):
+            ties.append({"what": "act.to_fields: the model's Expressible / forgetTailUuids and the harness' trigger of F-C04-g / projection disagree",
+                         "action": a, "model": {k: m[k] for k in ("expressible", "expressible_mod_tail_uuids", "forget_tail_uuids")}, "harness_trigger": trigger})
         (res, val), fields, row = real_roundtrip(a)
         # B: tie, export side
         rf = {"ok": fields} if fields is not None else {"err": val}
@@ -643,7 +719,7 @@ def worker(args):
             rb = {"ok": val} if res == "ok" else {"err": val}
             if not _same(rb, _norm_back(m["back"])):
                 ties.append({"what": "act.of_fields∘to_fields: model and real _get_row_action/_get_row_node disagree", "action": a, "real": rb, "model": m["back"]})
-        if not expressible:
+        if not inside:
             # not an oracle: how the real code treats what lies outside `Expressible`
             bump("outside." + ("roundtrips_anyway" if (res == "ok" and val == [c]) else "lossy" if res == "ok" else "loud_" + res))
             if res == "ok" and val == [c]:
@@ -652,11 +728,16 @@ def worker(args):
         # C: the property's own statement on the real code
         if sample is None:
             sample = {"action": a, "row_fields": {k: v for k, v in (fields or {}).items() if v not in ("", [], {"name": "", "uuid": "", "variables": []}, {"url": "", "method": "", "headers": [], "body": ""})}}
-        if not (res == "ok" and val == [c]):
-            viol.append({"what": "an action the sheet format expresses does not come back from its own row (export → compile)", "action": a,
+        if not (res == "ok" and same_kept(val, c)):
+            viol.append({"what": "an action the sheet format expresses does not come back from its own row (export → compile)"
+                                 + (" — not even up to the uuids of the groups after the first (F-C04-g)" if trigger else ""), "action": a,
                          "row_fields": fields, "comes_back_as": val if res == "ok" else f"{res} error: {val}"})
             continue
-        bump("oracle.keep.ok")
+        if "groups" in c and [g["name"] for g in val[0]["groups"]] != [g["name"] for g in c["groups"]]:
+            raise AssertionError("same_kept lets a group name go")
+        bump("oracle.keep.ok_up_to_tail_uuids(F-C04-g)" if trigger else "oracle.keep.ok")
+        if "groups" in c and len(c["groups"]) > 1:
+            bump("oracle.keep.several_groups.all_names_back_in_order")
         sb = real_of_fields(strip_row(row))
         if sb.get("ok") != [strip_expected(c)]:
             viol.append({"what": "with --strip_uuids (obj_id / wa_template.uuid columns dropped) the action's content does not come back", "action": a,
@@ -677,8 +758,7 @@ def worker(args):
         for strip in (False, True):
             back, headers = through_cells([row], strip)
             got = real_of_fields(back[0]) if not isinstance(back[0], str) else {"err": back[0]}
-            want = strip_expected(c) if strip else c
-            if got.get("ok") != [want]:
+            if not (got.get("ok") == [strip_expected(c)] if strip else same_kept(got.get("ok"), c)):
                 viol.append({"what": "an action the sheet format expresses does not come back from the exported sheet row (real RowDataSheet → real row parser → compile)",
                              "action": a, "strip_uuids": strip, "headers": headers, "comes_back_as": got})
                 break
@@ -725,7 +805,7 @@ def _check_batch(batch, viol, bump):
     back, headers = through_cells(rows, False)
     for (a, c), b in zip(batch, back):
         got = real_of_fields(b) if not isinstance(b, str) else {"err": b}
-        if got.get("ok") != [c]:
+        if not same_kept(got.get("ok"), c):
             viol.append({"what": "an action does not come back from its row of an exported sheet shared with other actions (padded columns)",
                          "action": a, "sheet_actions": [x for x, _ in batch], "headers": headers, "comes_back_as": got})
             return
@@ -751,16 +831,28 @@ KNOWN_J = [{"type": "send_msg", "uuid": _U, "text": "first", "attachments": [], 
 def known_streams(ck):
     """each open finding of the action codec: trigger present AND the recorded discrepancy pattern
     (AND the counterfactual without the trigger comes back intact)"""
-    # F-C04-g: more than one group
-    (res, val), fields, _ = real_roundtrip(KNOWN_G)
+    # F-C04-g (narrowed): several groups AND a group after the first carries a uuid AND uuids are kept: only that uuid is lost.
+    # Attribution: trigger + pattern (everything else equal: all names in order, first uuid) + both counterfactuals
+    # (the same action with the further group referenced by name comes back intact; with --strip_uuids the content is intact)
+    (res, val), fields, row = real_roundtrip(KNOWN_G)
     c = canon_action(KNOWN_G)
-    one = dict(KNOWN_G, groups=KNOWN_G["groups"][:1])
-    if res == "ok" and val == [dict(c, groups=c["groups"][:1])] and fields["mainarg_groups"] == ["Grp A", "Grp B"] \
-            and real_roundtrip(one)[0] == ("ok", [canon_action(one)]):
-        ck.known("F-C04-g", "an add/remove-groups action with several groups is exported with every group name but compiled from the first only: the other groups are gone",
+    lost = forget_tail_uuids(c)
+    by_name = dict(KNOWN_G, groups=[KNOWN_G["groups"][0], dict(KNOWN_G["groups"][1], uuid=None)])
+    if res == "ok" and val == [c]:
+        ck.notes.append("F-C04-g no longer reproduces (the uuid of a group after the first survives the row)")
+    elif res == "ok" and val == [lost] and val != [c] and tail_uuid_trigger(c) and fields["mainarg_groups"] == ["Grp A", "Grp B"] \
+            and fields["obj_id"] == KNOWN_G["groups"][0]["uuid"] and real_roundtrip(by_name)[0] == ("ok", [canon_action(by_name)]) \
+            and real_of_fields(strip_row(row)).get("ok") == [strip_expected(c)]:
+        ck.known("F-C04-g", "without --strip_uuids the uuids of the groups after the first of an add/remove-groups action are not preserved (obj_id carries the first group's uuid only; "
+                            "the others come back by name, uuid resolved through the container: known elsewhere or invented); every name, their order and the first uuid are",
+                 {"action": KNOWN_G, "row_fields": {"mainarg_groups": fields["mainarg_groups"], "obj_id": fields["obj_id"]}, "comes_back_as": val})
+    elif res == "ok" and len(val) == 1 and val[0].get("groups") == c["groups"][:1] and fields["mainarg_groups"] == ["Grp A", "Grp B"]:
+        # the repaired defect shows again (recorded as fixed → reported as a violation by ck.known)
+        ck.known("F-C04-k", "an add/remove-groups action with several groups is exported with every group name but compiled from the first only: the other groups are gone",
                  {"action": KNOWN_G, "row_fields.mainarg_groups": fields["mainarg_groups"], "comes_back_as": val})
-    elif not (res == "ok" and val == [c]):
-        ck.violation("multi-group action: neither intact nor the recorded pattern of F-C04-g", {"action": KNOWN_G, "comes_back_as": val})
+    else:
+        ck.violation("multi-group action: neither intact nor the recorded pattern of F-C04-g (only the uuids of the groups after the first differ)",
+                     {"action": KNOWN_G, "comes_back_as": val})
     # F-C04-h: field key that is not the key generated from the name
     (res, val), fields, _ = real_roundtrip(KNOWN_H)
     c = canon_action(KNOWN_H)
